@@ -58,6 +58,10 @@ impl Tokenizer {
                     '/' if content_iterator.peek().map(|&(_, ch)| ch) == Some('*') => {
                         content_iterator.next(); // remove opening '*'
                         nest_lvl += 1;
+                        // a comment separates lexical items: end the pending token
+                        if let Some(token) = previous.take() {
+                            tokens.push(token);
+                        }
                     }
                     // asn syntax
                     ':' | ';' | '=' | '(' | ')' | '{' | '}' | '.' | ',' | '[' | ']' | '\''
